@@ -54,6 +54,7 @@ type Contract struct {
 	Strings  string // "opaque" or "smtlib"
 	Bytes    string // "" or "smtlib"
 	Requires []*Clause
+	Assumes  []*Clause // ghost well-formedness: assumed by the body AND at call sites (never an obligation; listed)
 	Ensures  []*Clause
 	PanicsW  []*Clause
 	Assigns  []string
@@ -146,10 +147,19 @@ type ContractFile struct {
 	DefaultModel string
 	DefaultStrings string
 	Errors     []string
+	Globals    []*GlobalFact
 }
 
-var topKeywords = map[string]bool{"spec": true, "ghost": true, "invariant": true, "guarded": true, "lemma": true, "axiom": true, "extern": true, "interface": true, "func": true, "default": true}
-var subKeywords = map[string]bool{"props": true, "model": true, "strings": true, "bytes": true, "requires": true, "ensures": true, "panics": true, "assigns": true, "pure": true, "loop": true, "at": true, "flag": true, "decreases": true, "use": true, "known": true, "hyp": true, "protects": true, "clause": true}
+// GlobalFact: a fact about package-level variables that are assigned only by the package initialiser.
+// Proved as a postcondition of init, assumed on entry of every other function of the package.
+type GlobalFact struct {
+	Clause *Clause
+	Props  []string
+	Pkg    string
+}
+
+var topKeywords = map[string]bool{"global": true, "spec": true, "ghost": true, "invariant": true, "guarded": true, "lemma": true, "axiom": true, "extern": true, "interface": true, "func": true, "default": true}
+var subKeywords = map[string]bool{"assumes": true, "props": true, "model": true, "strings": true, "bytes": true, "requires": true, "ensures": true, "panics": true, "assigns": true, "pure": true, "loop": true, "at": true, "flag": true, "decreases": true, "use": true, "known": true, "hyp": true, "protects": true, "clause": true}
 
 type rawLine struct {
 	text string
@@ -207,9 +217,10 @@ func ParseContractLines(pkg, path string, lines []rawLine) *ContractFile {
 	var curInv *InvariantDecl
 	var curLemma *LemmaDecl
 	var curSpec *SpecFunc
+	var curGlobal *GlobalFact
 	for _, d := range dirs {
 		if d.top {
-			cur, curInv, curLemma, curSpec = nil, nil, nil, nil
+			cur, curInv, curLemma, curSpec, curGlobal = nil, nil, nil, nil, nil
 		}
 		switch d.kw {
 		case "default":
@@ -220,6 +231,12 @@ func ParseContractLines(pkg, path string, lines []rawLine) *ContractFile {
 				cf.DefaultStrings = f[1]
 			} else {
 				errf(d.loc, "bad default directive")
+			}
+		case "global":
+			if c := mkClause(d.loc, d.text); c != nil {
+				gf := &GlobalFact{Clause: c, Pkg: pkg}
+				cf.Globals = append(cf.Globals, gf)
+				curGlobal = gf
 			}
 		case "spec":
 			// spec func [rec] name(params) type = expr   |  spec func name(params) type   (uninterpreted)
@@ -372,6 +389,14 @@ func ParseContractLines(pkg, path string, lines []rawLine) *ContractFile {
 			cur = c
 		default:
 			// sub-directives
+			if curGlobal != nil {
+				if d.kw == "props" {
+					curGlobal.Props = splitList(d.text)
+					continue
+				}
+				errf(d.loc, "unexpected %q after global", d.kw)
+				continue
+			}
 			if curLemma != nil {
 				switch d.kw {
 				case "props":
@@ -441,6 +466,10 @@ func ParseContractLines(pkg, path string, lines []rawLine) *ContractFile {
 			case "ensures":
 				if c := mkClause(d.loc, d.text); c != nil {
 					cur.Ensures = append(cur.Ensures, c)
+				}
+			case "assumes":
+				if c := mkClause(d.loc, d.text); c != nil {
+					cur.Assumes = append(cur.Assumes, c)
 				}
 			case "panics":
 				t := strings.TrimSpace(strings.TrimPrefix(strings.TrimSpace(d.text), "when"))
